@@ -201,9 +201,11 @@ def run(ck):
                     ck.fail(key, "transceive(%s) raised %s" % (c.hex(), name), replay)
                 failed_before = True
         # absorbed faults: k errors in one retry loop need 2k-1 <= n_retry (a retransmission after R(ACK) also counts)
-        if len(cmds) == 1 and cmds[0] and "p" not in used and air.faults_used > 0 \
+        if len(cmds) == 1 and cmds[0] and "p" not in used \
                 and 2 * air.faults_used - 1 <= dep.n_retry_nak and not results[0].startswith("ok"):
-            key = "isodep-wtx-raw-exception" if card.wtx_sent > 0 and not results[0].startswith("exc TagCommandError") else "isodep-not-absorbed"
+            key = ("isodep-wtx-raw-exception" if card.wtx_sent > 0 and not results[0].startswith("exc TagCommandError") else
+                   "isodep-wtx-response-chain" if air.faults_used == 0 and card.wtx_sent > 0 and cfg.wtx[2] > 0 else
+                   "isodep-not-absorbed")
             ck.fail(key, "%d fault(s) with retry budget %d ended in %s" % (air.faults_used, dep.n_retry_nak, results[0]), replay)
         # timeouts handed to the reader
         fwt = fwt_of(cfg.fwi if cfg.fwi <= 14 else 4)
@@ -216,6 +218,14 @@ def run(ck):
     def legs_of(cfg, cmds):
         tag, air, card, results = run_real(cfg, "", cmds, sims, tt4, nfc.clf)
         return air.pos
+
+    # ------------------------------------------------------------------ the two known witnesses, always
+    # F16: fault while the card asks for waiting time; S(WTX) during response chaining
+    one(Cfg("A", 8, 4, 256, 256, 253, (1, 0, 0), 2, 4), "ddl", [b"\x00\xb0\x00\x00\x04"], "witness")
+    one(Cfg("A", 8, 4, 256, 256, 253, (1, 0, 0), 2, 4), "dddc", [b"\x00\xb0\x00\x00\x04"], "witness")
+    one(Cfg("B", 2, 4, 256, 256, 8, (0, 0, 1), 1, 14), "", [b"\x00\xb0\x00\x00\x0e"], "witness")
+    # stale response after a failed exchange (open finding): response lost beyond the budget, next I-block lost once
+    one(Cfg("A", 8, 11, 256, 256, 253, (0, 0, 0), 1, 4), "dldlldd", [b"\x00\xb0\x00\x00\x04", b"\x00\xb0\x00\x04\x04"], "witness")
 
     # ------------------------------------------------------------------ activation parameters (exhaustive)
     act_reqs = []
@@ -312,14 +322,6 @@ def run(ck):
         slen = rng.randrange(0, 70)
         script = "".join(rng.choice(KINDS) if rng.random() < p else "d" for _ in range(slen)).rstrip("d")
         one(cfg, script, cmds, "sampled:%d-cmd" % ncmd)
-
-    # ------------------------------------------------------------------ the two known witnesses, always
-    # F16: fault while the card asks for waiting time; S(WTX) during response chaining
-    one(Cfg("A", 8, 4, 256, 256, 253, (1, 0, 0), 2, 4), "ddl", [b"\x00\xb0\x00\x00\x04"], "witness")
-    one(Cfg("A", 8, 4, 256, 256, 253, (1, 0, 0), 2, 4), "dddc", [b"\x00\xb0\x00\x00\x04"], "witness")
-    one(Cfg("B", 2, 4, 256, 256, 8, (0, 0, 1), 1, 14), "", [b"\x00\xb0\x00\x00\x0e"], "witness")
-    # stale response after a failed exchange (open finding): response lost beyond the budget, next I-block lost once
-    one(Cfg("A", 8, 11, 256, 256, 253, (0, 0, 0), 1, 4), "dldlldd", [b"\x00\xb0\x00\x00\x04", b"\x00\xb0\x00\x04\x04"], "witness")
 
     # ------------------------------------------------------------------ send_apdu (APDU encoding and status word)
     apdu_reqs = []
